@@ -168,3 +168,42 @@ pub proof fn lemma_delta_is_edge(s: State, n: int, c: u32)
         assert(s.successor@[i] == st_delta(s, c as int));
     }
 }
+
+// characters in one class of a combined partition have the same successor in every state
+pub proof fn lemma_combined_uniform(a: Automaton, p: CharPartition, q: int, x: int, y: int, j: int)
+    requires dfa_wf(a), is_combined(p, a), 0 <= q < a.states@.len(), in_class_no(p, x, j), in_class_no(p, y, j),
+    ensures delta(a, q, x) == delta(a, q, y),
+{
+    let l = p.list@;
+    let s = a.states@[q];
+    let ls = s.classes.list@;
+    assert(cl_same(l, x, y)) by {
+        assert forall|i: int| 0 <= i < l.len() implies cs_has(#[trigger] l[i], x) == cs_has(l[i], y) by {
+            if j < l.len() {
+                if i < j { assert(l[i].end < l[j].start); }
+                if j < i { assert(l[j].end < l[i].start); }
+            } else {
+                if cs_has(l[i], x) { assert(cl_in(l, x)); }
+                if cs_has(l[i], y) { assert(cl_in(l, y)); }
+            }
+        }
+    }
+    assert(st_wf(s, a.states@.len() as int));
+    assert forall|c: int| cl_in(ls, c) implies cl_in(l, c) by {}
+    lemma_refines_same(l, ls, x, y);
+    lemma_delta_total(s, a.states@.len() as int, x);
+    lemma_delta_total(s, a.states@.len() as int, y);
+    if cl_in(ls, x) {
+        let i = choose|i: int| 0 <= i < ls.len() && cs_has(#[trigger] ls[i], x);
+        assert(cs_has(ls[i], y));
+        assert(st_maps(s, y, s.successor@[i] as int));
+        assert(st_maps(s, x, s.successor@[i] as int));
+    } else {
+        assert(!cl_in(ls, y)) by {
+            if cl_in(ls, y) {
+                let i = choose|i: int| 0 <= i < ls.len() && cs_has(#[trigger] ls[i], y);
+                assert(cs_has(ls[i], x));
+            }
+        }
+    }
+}
